@@ -1202,8 +1202,19 @@ class Tr:
                 raise Unsupported("an if with a branch that may, but need not, continue/return/break: " + ast.unparse(st.test))
             allv = self.assigned(st.body + st.orelse)
             vs = [v for v in allv if v in env and env[v] != ("unit",)]
-            both = [v for v in allv if v not in vs and v in self.plainly_assigned(st.body) and v in self.plainly_assigned(st.orelse)
-                    and self.vars.get(v, ("",))[0] != "alt"]     # declared `T1 | T2`: the branches may bind it at different types - not carried
+            both = [v for v in allv if v not in vs and v in self.plainly_assigned(st.body) and v in self.plainly_assigned(st.orelse)]
+            alts = [v for v in both if self.vars.get(v, ("",))[0] == "alt"]
+            if alts:
+                # declared `T1 | T2` and assigned on both paths: carried out of the `if` only when both branches leave it at the
+                # SAME alternative (a probe translation of the branches, discarded, finds the types); otherwise not carried
+                probe, saved = [], self.fresh
+                pr = lambda env2, jump=None: (probe.append(env2), "")[1]
+                try:
+                    self.block(st.body, env, pr, ind)
+                    self.block(st.orelse, env, pr, ind)
+                finally:
+                    self.fresh = saved
+                both = [v for v in both if v not in alts or (len(probe) == 2 and probe[0].get(v) == probe[1].get(v))]
             vs = [v for v in allv if v in vs or v in both]     # assigned on both paths: bound afterwards
             dropped = [v for v in allv if v not in vs]
             ret = lambda env2, jump=None: "%s    %s %s\n" % (ind, self.M["ok"], tuple_term(vs)) if jump is None else self.unsupported("jump in if")
@@ -1214,7 +1225,7 @@ class Tr:
             txt = "%s%s %s <- (if %s then\n%s%s  else\n%s%s  );\n" % (ind, self.M["bind"], self.bind_pat(vs), c, tb, ind, te, ind)
             env_after = dict(env)
             for v in both:
-                env_after[v] = self.var_type(v)
+                env_after[v] = self.var_type(v)     # (an alt-typed one is refined to its end-of-branch type just below)
             for v in vs:
                 if self.vars.get(v, ("",))[0] == "alt":     # declared `T1 | T2`: the type it has where the branches end
                     tys = set(e2.get(v) for e2 in ends)
